@@ -13,8 +13,15 @@ type Dim struct {
 // The all-zero vector comes first, then fewer non-zero coordinates before more (simplest first).
 // The slice handed to f is reused.
 func TWay(dims []Dim, t int, f func(v []int)) int {
+	return TWayInteracting(dims, t, nil, f)
+}
+
+// TWayInteracting is TWay restricted to combinations of dimensions that pairwise interact
+// (interacts == nil means every pair interacts). Single dimensions are always enumerated.
+func TWayInteracting(dims []Dim, t int, interacts func(a, b string) bool, f func(v []int)) int {
 	v := make([]int, len(dims))
 	n := 0
+	var chosen []int
 	var rec func(start, left int)
 	rec = func(start, left int) {
 		if left == 0 {
@@ -22,12 +29,22 @@ func TWay(dims []Dim, t int, f func(v []int)) int {
 			f(v)
 			return
 		}
+	next:
 		for i := start; i < len(dims); i++ {
+			if interacts != nil {
+				for _, c := range chosen {
+					if !interacts(dims[c].Name, dims[i].Name) {
+						continue next
+					}
+				}
+			}
+			chosen = append(chosen, i)
 			for val := 1; val < dims[i].N; val++ {
 				v[i] = val
 				rec(i+1, left-1)
 			}
 			v[i] = 0
+			chosen = chosen[:len(chosen)-1]
 		}
 	}
 	for k := 0; k <= t && k <= len(dims); k++ {
